@@ -10,12 +10,52 @@ def keep(l):
     return l.startswith(("ret ", "blocked", "pub ", "disconnect", "ev w ", "close"))
 
 
+def gen_tree(r, depth):
+    """an error value as applications and the client build them: sentinels and unrelated errors, %w wrappers, joins of joins"""
+    roll = r.random()
+    if depth <= 0 or roll < 0.3:
+        return "L%d" % r.choice([1, 2, 3, 4, 5, 6, 7, 10, 11, 12, 13, 14, 15, 16, 20, 21, 22, 23, 30])
+    if roll < 0.36:
+        return "N%d" % r.choice([40, 41])
+    if roll < 0.6:
+        return "W(%s)" % gen_tree(r, depth - 1)
+    n = r.choice([0, 1, 2, 2, 3, 3, 4])
+    return "J(%s)" % ",".join(gen_tree(r, depth - 1) for _ in range(n))
+
+
+def classifier_stage(ctx, v, stats):
+    """IsDeny / IsEnd / nonNilIsAny on error values of any shape: model (proved equal to 'some node is a target') against the
+    implementation, which also must agree with errors.Is and leave the value it classified unchanged"""
+    from . import common as C
+    r = ctx.rng
+    lines = ["isany J(W(J(L5,L30)),W(L1)) end", "isany J(W(J(L5,L30,L31)),W(L1),L2) 1", "isany J(L20,W(J(L21,L1)),N5) 1"]
+    for _ in range(1500 if ctx.quick() else 30000):
+        t = gen_tree(r, r.choice([1, 2, 3, 4, 5]))
+        tg = r.choice(["deny", "end", "end", ",".join(str(r.choice([1, 2, 3, 5, 13, 20, 21, 30])) for _ in range(r.choice([1, 2, 3])))])
+        lines.append("isany %s %s" % (t, tg))
+    impl, model = C.run_cases(ctx, "pure", [lines])
+    impl, model = impl[0], model[0]
+    stats["classifier_values"] = len(lines)
+    stats["classifier_true"] = sum(1 for l in impl if l == "isany true")
+    for k, line in enumerate(lines):
+        io = impl[k] if k < len(impl) else "<missing>"
+        mo = model[k] if k < len(model) else "<missing>"
+        if io not in ("isany true", "isany false"):
+            sig = "classifier:modifies-argument" if "modified" in io else ("classifier:differs-from-errors-is" if "errors.Is" in io else "classifier:output")
+            v.violation("C14:" + sig, "`%s`: %s" % (line[:120], io[:160]), {"port": "pure", "script": [line], "impl": [io], "model": [mo]})
+        elif io != mo:
+            v.broken_tie("nonNilIsAny differs from the model on `%s`: impl %s model %s" % (line[:100], io, mo),
+                         {"port": "pure", "script": [line], "impl": [io], "model": [mo]})
+
+
 def run(ctx):
     mon = lambda tr, sc: SC.mon_sanity(tr) + SC.mon_errors(tr)
     v, stats, hist, samples, nd = SC.run_property(ctx, MODULE, PROFILE, 300, 5000, [mon], keep, length=(8, 30))
+    if stats.get("scripts"):
+        classifier_stage(ctx, v, stats)
     return SC.finish(ctx, v, stats, hist, samples, nd,
                      "each request method in each client state (pending, down, online, closing, closed) with write faults before/within the "
                      "packet, lost or malformed responses and quit at each stage; the class vector of every returned error (errors.Is/As "
                      "against every sentinel) is judged against the documented table, and not-submitted classes against the wire",
                      SC.SESSION_ASSUMPTIONS + ["the documented table is transcribed by hand from mqtt.go:1-21 (DOC_CLASSES in sesscheck.py, Doc comment in Props/C14.lean)",
-                                               "the classifier nonNilIsAny over arbitrary wrap/join forests is not modelled yet"])
+                                               "error values: trees of sentinels, %w wrappers and joins; Is methods of foreign error types are not modelled"])
